@@ -5,12 +5,15 @@ Import ListNotations.
 Open Scope Z_scope.
 
 (* same MaxSize, any adaptive window/protected split reached by prior use (carried in the metadata
-   since the F13 fix), nothing expired meanwhile: every entry comes back with its key, value, cost
+   since the F13 fix) - including a window the hill climber has SHRUNK in favour of the main regions, so that
+   probation + protected hold more than the fixed main size of a fresh cache (defect F13c: up to window-1 probation
+   entries were dropped; the only premise on the total now is that it is within the capacity, which holds for
+   every quiescent cache) - nothing expired meanwhile: every entry comes back with its key, value, cost
    and deadline, each region in its saved order, under the saved clock origin *)
 Theorem c11_same_size : forall version st tot cap wcap pcap win prot prob wc' pc' mm' st' wall,
   cap = cap -> 1 <= wcap -> 0 <= pcap -> w64 (wcap + pcap) = w64 (wc' + pc') ->
   (forall e, In e (win ++ prot ++ prob) -> 0 <= pe_pw e /\ (pe_expire e = 0 \/ wall - st <= pe_expire e)) ->
-  sumw win <= wcap -> sumw prot <= pcap -> sumw prot + sumw prob <= mm' ->
+  sumw win <= wcap -> sumw prot <= pcap -> sumw win + sumw prot + sumw prob <= cap ->
   let res := recover version (fresh cap wc' pc' mm' st' wall) (save version st tot cap wcap pcap win prot prob) in
   snd res = rOK /\ r_win (fst res) = win /\ r_prot (fst res) = prot /\ r_prob (fst res) = prob /\
   r_start (fst res) = st /\ r_wsz (fst res) = sumw win + sumw prot + sumw prob /\
@@ -19,16 +22,17 @@ Proof. exact reload_same. Qed.
 Print Assumptions c11_same_size.
 
 (* any target size, any elapsed time: each region of the result is an order-preserving part of the
-   saved region (entries expired meanwhile or not fitting are dropped), every region is within the
-   capacity in force, and the policy total is exactly the sum of what was loaded *)
+   saved region (entries expired meanwhile or not fitting are dropped), window and protected are within the
+   capacities in force, the total is within the capacity of the receiving cache, and the policy total is exactly
+   the sum of what was loaded *)
 Theorem c11_any_size : forall version st tot cap wcap pcap win prot prob cap' wc' pc' mm' st' wall,
-  0 <= wc' -> 0 <= pc' <= mm' -> 0 <= pcap <= mm' ->
+  0 <= wc' -> 0 <= pc' -> wc' + pc' <= cap' -> 0 <= pcap -> wcap + pcap <= cap ->
   let r0 := fresh cap' wc' pc' mm' st' wall in
   let res := recover version r0 (save version st tot cap wcap pcap win prot prob) in
   snd res = rOK /\ r_start (fst res) = st /\
   subseq (r_win (fst res)) win /\ subseq (r_prot (fst res)) prot /\ subseq (r_prob (fst res)) prob /\
   sumw (r_win (fst res)) <= r_wcap (fst res) /\ sumw (r_prot (fst res)) <= r_pcap (fst res) /\
-  sumw (r_prot (fst res)) + sumw (r_prob (fst res)) <= mm' /\
+  r_wsz (fst res) <= cap' /\
   r_wsz (fst res) = sumw (r_win (fst res)) + sumw (r_prot (fst res)) + sumw (r_prob (fst res)) /\
   ((r_wcap (fst res) = wc' /\ r_pcap (fst res) = pc') \/ (r_wcap (fst res) = wcap /\ r_pcap (fst res) = pcap /\ 1 <= wcap /\ cap = cap')).
 Proof. exact reload_any. Qed.
@@ -38,6 +42,15 @@ Print Assumptions c11_any_size.
 Theorem c11_deadline_wallclock : forall (st expire : Z) (r : rstate), r_start r = st -> r_start r + expire = st + expire.
 Proof. exact deadline_wallclock. Qed.
 Print Assumptions c11_deadline_wallclock.
+
+(* non-vacuity of the shrunk-window case: capacity 10, saved window 1 / protected 8 (fresh split 2 / 7, fresh main size 8):
+   probation + protected hold 9 > 8 and every entry comes back *)
+Example c11_shrunk_window_example :
+  let e k := mkPE k (k * 10) 1 1 0 3 in
+  let res := recover 7 (fresh 10 2 7 8 500 2000)
+                     (save 7 100 10 10 1 8 [e 1] (map e [2; 3; 4; 5; 6; 7; 8]) (map e [9; 10])) in
+  snd res = rOK /\ map pe_key (r_prob (fst res)) = [9; 10] /\ length (r_prot (fst res)) = 7%nat /\ r_wsz (fst res) = 10.
+Proof. vm_compute. repeat split. Qed.
 
 Example c11_example :
   let e k w x := mkPE k (k * 10) w w x 3 in
